@@ -119,12 +119,15 @@ CLAIMS = {
         technique="Lean 4 invariant by induction over all 21 operations of a state-machine model of SpatialTransform / "
                   "ParametricTransform (shared vs copied containers, version-tagged buffers, links) + exact correspondence "
                   "on operation histories with version-coded parameters/grids",
-        text="10 theorems: every reachable world satisfies the buffer-tag and allocation invariants; a call after ANY history "
+        text="12 theorems: every reachable world satisfies the buffer-tag and allocation invariants; a call after ANY history "
              "(any length) observes exactly the parameters, grid and conditioning held at that moment, for plain and "
              "composite transforms; disp right after data_/grid_/condition_/reset reflects the new state; a linked transform "
              "follows what its source last evaluated; C07's sharing clause. The defects found (F-07, F-09a, F-15a x3, F-09c: grid_ "
-             "ignored a change of align_corners alone) were repaired. Regrid-preserves-world is oracle-only (partial): smooth and exactly-linear fields, either "
-             "align_corners before/after; keyword conditioning by oracle.",
+             "ignored a change of align_corners alone) were repaired. Regrid-preserves-world is partial: proved that the vector "
+             "stored at every new sample has the world value of the old field's interpolant there (any grid pair, either "
+             "convention: C09_regrid_dense_partial) and that B-spline refinement keeps the value at every old sample "
+             "(C09_regrid_bspline_partial); between samples it holds up to interpolation error only (oracle: smooth and "
+             "exactly-linear fields). Keyword conditioning by oracle.",
         ref="5 C09"),
     "C10": dict(
         technique="Lean 4 theorems: representation conversions are the grid's vector maps; expv is conjugate to one "
